@@ -53,6 +53,9 @@ pub struct K18 {
     /// `rx` + this offset
     #[serde(default)]
     pub gpsd_move: Option<(f64, f64)>,
+    /// `RUST_LOG` of the client (None = unset)
+    #[serde(default)]
+    pub rust_log: Option<String>,
 }
 
 fn default_rx() -> (f64, f64) {
@@ -134,7 +137,7 @@ fn generate_two_lives(rng: &mut Rng) -> K18 {
         KEvent { at_us: 1_800_000, ev: key("F1") },
         KEvent { at_us: 2_000_000, ev: key("c:q") },
     ];
-    K18 { cols: 120, rows: 40, filter_time, locations: vec![("RX".to_string(), 0.0, 0.0)], flags: vec![], lines, events_a, events_b, bulk: 0, many: false, rx, gpsd_cli_offset: None, gpsd_move: None }
+    K18 { cols: 120, rows: 40, filter_time, locations: vec![("RX".to_string(), 0.0, 0.0)], flags: vec![], lines, events_a, events_b, bulk: 0, many: false, rx, gpsd_cli_offset: None, gpsd_move: None, rust_log: None }
 }
 
 pub fn generate(rng: &mut Rng, fault_free: bool) -> K18 {
@@ -398,8 +401,9 @@ pub fn generate(rng: &mut Rng, fault_free: bool) -> K18 {
     push(&mut events_b, &mut t, key("F1"), 250_000);
     push(&mut events_b, &mut t, key("c:q"), 0);
     let gpsd_cli_offset = if !fault_free && rng.chance(0.12) { Some(*rng.pick(&[(0.5, 0.0), (0.0, 1.0), (-0.7, 0.8), (1.0, -1.0), (0.0, -0.3), (0.01, 0.01)])) } else { None };
+    let rust_log = if !fault_free && rng.chance(0.3) { Some((*rng.pick(&["trace", "debug", "info", "rsadsb_common=trace", "radar=trace,adsb_deku=debug", "warn", ""])).to_string()) } else { None };
     let gpsd_move = if gpsd_cli_offset.is_some() && rng.chance(0.4) { Some(*rng.pick(&[(0.1, 0.2), (-0.2, 0.15), (0.05, -0.3), (-0.25, -0.1), (0.0, 0.3), (0.25, 0.0)])) } else { None };
-    K18 { cols, rows, filter_time, locations, flags, lines, events_a, events_b, bulk, many: many || excursion, rx, gpsd_cli_offset, gpsd_move }
+    K18 { cols, rows, filter_time, locations, flags, lines, events_a, events_b, bulk, many: many || excursion, rx, gpsd_cli_offset, gpsd_move, rust_log }
 }
 
 const GPSD_LEAD_US: u64 = 300_000;
@@ -498,7 +502,7 @@ pub fn compile(sc: &K18) -> KChild {
     }
     // never coalesce: one segment (= one line) per read, so the processing time of every line is
     // the time of its RD entry in the seam log
-    KChild { gpsd, ev_delay_us: vec![], connects, events, proc_delay_us: vec![], coalesce: vec![false], step_budget: 40_000 + 4 * sc.bulk as u64 }
+    KChild { rust_log: sc.rust_log.clone(), gpsd, ev_delay_us: vec![], connects, events, proc_delay_us: vec![], coalesce: vec![false], step_budget: 40_000 + 4 * sc.bulk as u64 }
 }
 
 struct RefSnap {
@@ -988,6 +992,9 @@ pub fn execute(sc: &K18) -> Outcome {
     if table_after_seen {
         out.probe("table_unchanged_after_view_controls");
     }
+    if sc.rust_log.is_some() {
+        out.fault("diagnostics_switched_on");
+    }
     if sc.events_b.len() > 8 {
         out.fault("view_control_sequence");
     }
@@ -1167,6 +1174,15 @@ fn dump(rows: &[Row]) -> String {
 
 pub fn shrink(sc: &K18) -> Vec<K18> {
     let mut c = vec![];
+    if sc.rust_log.is_some() {
+        c.push(K18 { rust_log: None, ..sc.clone() });
+    }
+    if sc.gpsd_move.is_some() {
+        c.push(K18 { gpsd_move: None, ..sc.clone() });
+    }
+    if sc.gpsd_cli_offset.is_some() {
+        c.push(K18 { gpsd_cli_offset: None, gpsd_move: None, ..sc.clone() });
+    }
     for l in drop_chunks(&sc.lines) {
         c.push(K18 { lines: l, ..sc.clone() });
     }
